@@ -612,6 +612,60 @@ impl Property for C13 {
         }
         out.into_iter().map(|c| serde_json::to_value(c).unwrap()).collect()
     }
+    fn extra(&self, tier: Tier, seed: u64) -> Option<crate::framework::Extra> {
+        // `crustabri check -f FILE -r FORMAT`: exit status 0 iff the file is accepted
+        use crate::cli::{self, StdoutMode};
+        let mut x = crate::framework::Extra::default();
+        let n = match tier {
+            Tier::Quick => 60,
+            Tier::Thorough => 3000,
+        };
+        let dir = cli::scratch_dir("c13check");
+        let f = dir.join("instance.txt");
+        let mut rng = Rng::new(seed ^ 0xC13C);
+        let (mut ok, mut rejected, mut unspecified) = (0u64, 0u64, 0u64);
+        for _ in 0..n {
+            let fmt = if rng.bool() { Fmt::Iccma } else { Fmt::Apx };
+            let fw = gen_fw(&mut rng);
+            let text = match rng.below(3) {
+                0 => render_wellformed(&mut rng, fmt, &fw),
+                1 => render_illformed(&mut rng, fmt, &fw).0,
+                _ => {
+                    let t = render_wellformed(&mut rng, fmt, &fw);
+                    corrupt(&mut rng, &t)
+                }
+            };
+            std::fs::write(&f, &text).unwrap();
+            let args: Vec<String> = vec!["check".into(), "-f".into(), f.to_string_lossy().to_string(), "-r".into(), if fmt == Fmt::Apx { "apx".into() } else { "iccma23".into() }, "--logging-level".into(), "off".into()];
+            let o = cli::run("crustabri", &args, StdoutMode::Pipe, std::time::Duration::from_secs(60));
+            x.evaluations += 1;
+            let case = json!({"cli": {"args": args, "text": String::from_utf8_lossy(&text)}});
+            let accepted = o.code == Some(0);
+            match classify(fmt, &text) {
+                RefParse::WellFormed(..) => {
+                    ok += 1;
+                    if !accepted {
+                        x.violations.push((case, Violation::new("C13", "wellformed-rejected", format!("`crustabri check` exit {:?} on the well-formed {:?} file {:?}", o.code, fmt, String::from_utf8_lossy(&text))).at("via", "cli")));
+                    }
+                }
+                RefParse::IllFormed(c) => {
+                    rejected += 1;
+                    if accepted || o.timed_out {
+                        x.violations.push((case, Violation::new("C13", "illformed-accepted", format!("`crustabri check` exit 0 on the ill-formed ({}) {:?} file {:?}", c, fmt, String::from_utf8_lossy(&text))).at("via", "cli").at("class", c)));
+                    }
+                }
+                RefParse::Unspecified(_) => {
+                    unspecified += 1;
+                    if o.timed_out || o.code.is_none() {
+                        x.violations.push((case, Violation::new("C13", "panic", format!("`crustabri check` did not terminate normally on {:?}", String::from_utf8_lossy(&text))).at("via", "cli")));
+                    }
+                }
+            }
+        }
+        let _ = std::fs::remove_dir_all(&dir);
+        x.value = json!({"check_command": {"processes": x.evaluations, "wellformed": ok, "illformed_listed": rejected, "unspecified": unspecified, "what": "`crustabri check -f FILE -r FORMAT` exit status agrees with the reference parser on generated files"}});
+        Some(x)
+    }
     fn rule(&self) -> String {
         "case = a text of one of the two grammars: (a) well-formed from a known framework (comments, blank lines, CRLF/mixed line ends, missing final newline, surrounding spaces/tabs, duplicate declarations), (b) ill-formed of one LISTED class built by a dedicated operator (no/bad header, index 0 or n+1, arity, undeclared argument, argument after attack, content after blank line), (c) token-/byte-level corruption of (a). FAULT ENUMERATION per text through FaultyRead: whole, 4 seeded chunkings with EINTR, and for EVERY offset k (all when <= 256 bytes): EOF at k, hard read error at k, one flipped bit at k (each also under a seeded chunking). Oracle: never panics; hard error => Err; otherwise what two independent reference parsers say about the bytes actually delivered (WellFormed(F) => Ok(F) with declared order and attack set, IllFormed(listed) => Err, Unspecified => totality only); same bytes => same result for every delivery schedule; read_arg_from_str on every label and near misses. Non-trivial = text of >= 4 bytes; distinct = distinct (format, text)".into()
     }
